@@ -9,6 +9,9 @@ for l in open(sys.argv[1]):
     if not m:
         continue
     id, kind, prop, f = m.groups()
+    if 'CHECKER-BROKEN' in f:
+        print('CHECKER-BROKEN', l.strip()); bad += 1
+        f = f.split('|')[0]
     fired = [] if f.strip() == 'NONE' else f.split()
     p = '/verif/seeded/%s/meta.json' % id
     meta = json.load(open(p))
